@@ -14,7 +14,7 @@ import re
 import facts
 import q
 from facts import walk, walk_with_path, peel, call_is, unblock, variant_of, strip_ref, subpat, pat_str, lit, or_pats
-from show import show
+from show import show, show_fn
 
 FILTERS = {
     "Contains": None,
@@ -22,6 +22,26 @@ FILTERS = {
     "Exact": "((Match::start(i) Eq 0) && (Match::end(i) Eq <impl str>::len(value)))",
     "StartsWith": "(Match::start(i) Eq 0)",
 }
+
+
+def lockstep_roles(F):
+    """{insensitive flag: (needle vector id, context vector id, needle name, context name)} for the two list automata of parse_mapping,
+    found by structure: Search::AhoCorasick(build(<needles>), <context>, <flag literal>) with both vectors plain variables."""
+    roles = {}
+    pm = F.fn("parser::parse_mapping")
+    if pm is None:
+        return roles
+    for n in walk(pm.body):
+        if n.get("k") == "Adt" and n["adt"] == "parser::Search" and n["variant"] == "AhoCorasick":
+            fields = {fl["name"]: fl["e"] for fl in n["fields"]}
+            build = [c for c in builder_chain(fields["0"]) if c[0] == "build"]
+            if not build:
+                continue
+            nd, cx = peel(build[0][1]["args"][1]), peel(fields["1"])
+            fl = lit(fields["2"])
+            if nd.get("k") == "Var" and cx.get("k") == "Var" and fl and fl[0] == "bool":
+                roles[fl[1]] = (nd["id"], cx["id"], nd["name"], cx["name"])
+    return roles
 
 
 def builder_chain(n):
@@ -139,10 +159,16 @@ def run(rep):
     # slow_aho: bit recorded is the pattern's own index; hits counted over 0..len
     sa = F.fn("solver::slow_aho")
     if sa is not None:
-        s = show(sa.body)
-        rep.check("map BitOrAssign (1 Shl PatternID::as_u64(p))" in s and "for $i in Range::Range{start: 0, end: len} {hits AddAssign ((map Shr i) BitAnd 1)}" in s and "(len Lt 64)" in s,
-                  "T-OFFSET", "T-OFFSET/bitmap-count", sa.sp, "bitmap half: bit p per pattern, popcount over 0..len, only when len < 64", "")
-        rep.check("<T, S, A>::insert(hits, p)" in s and "(<T, S, A>::len(hits) as u64)" in s, "T-OFFSET", "T-OFFSET/set-count", sa.sp, "set half counts distinct pattern ids", "")
+        s = show_fn(sa)
+        want = ("fn($a, $m, $value) {let $len = <impl [T]>::len(m); if (len Lt 64) {{let $map = 0; for $i in AhoCorasick::find_overlapping_iter(a, value) {{let $p = Match::pattern(i); match Index::index(m, p) {"
+                "MatchType::Contains(_) => map BitOrAssign (1 Shl PatternID::as_u64(p)), MatchType::EndsWith(_) => if (Match::end(i) Eq <impl str>::len(value)) {map BitOrAssign (1 Shl PatternID::as_u64(p))}, "
+                "MatchType::Exact(_) => if ((Match::start(i) Eq 0) && (Match::end(i) Eq <impl str>::len(value))) {map BitOrAssign (1 Shl PatternID::as_u64(p))}, "
+                "MatchType::StartsWith(_) => if (Match::start(i) Eq 0) {map BitOrAssign (1 Shl PatternID::as_u64(p))}}}}; let $hits = 0; for $i in Range::Range{start: 0, end: len} {hits AddAssign ((map Shr i) BitAnd 1)}; hits}} else {"
+                "{let $hits = <T>::with_capacity(len); for $i in AhoCorasick::find_overlapping_iter(a, value) {{let $p = Match::pattern(i); match Index::index(m, p) {"
+                "MatchType::Contains(_) => <T, S, A>::insert(hits, p), MatchType::EndsWith(_) => if (Match::end(i) Eq <impl str>::len(value)) {<T, S, A>::insert(hits, p)}, "
+                "MatchType::Exact(_) => if ((Match::start(i) Eq 0) && (Match::end(i) Eq <impl str>::len(value))) {<T, S, A>::insert(hits, p)}, "
+                "MatchType::StartsWith(_) => if (Match::start(i) Eq 0) {<T, S, A>::insert(hits, p)}}}}; (<T, S, A>::len(hits) as u64)}}}")
+        rep.check(s == want, "T-OFFSET", "T-OFFSET/count-halves", sa.sp, "slow_aho: bitmap half (bit per pattern id, popcount over 0..len, only when len < 64) and set half (distinct pattern ids), both over the filtered overlapping hits", None if s == want else "body differs from the reviewed form (modulo renaming)")
 
     # ---------------------------------------------------------------- builders: AHO-OVERLAP (kind), FLAG
     nb = 0
@@ -179,12 +205,13 @@ def run(rep):
                 if build:
                     nd = show(build[0][1]["args"][1])
                     cx = show(fields["1"])
-                    pairs = {("needles", "context"), ("ineedles", "icontext")}
+                    roles = lockstep_roles(F)
+                    pairs = {(r[2], r[3]) for r in roles.values()}
                     single = re.fullmatch(r"boxed::box_assume_init_into_vec_unsafe\(.*\)|<\[_\]>::into_vec\(.*\)|.*\[Clone::clone\(c\)\].*", nd) is not None or "Clone::clone(c)" in nd
                     if (nd, cx) in pairs and fname == "parser::parse_mapping":
                         rep.ok("LOCKSTEP", "LOCKSTEP/ctor/" + tag, n["sp"], "automaton over %s is paired with %s" % (nd, cx))
-                        want_flag = nd == "ineedles"
-                        rep.check(lit(flag) == ("bool", want_flag), "FLAG", "FLAG/bucket/" + tag, n["sp"], "the %s bucket is %s" % (nd, "insensitive" if want_flag else "sensitive"), show(flag))
+                        want_flag = [k for k, r in roles.items() if r[2] == nd][0]
+                        rep.check(lit(flag) == ("bool", want_flag) and len(roles) == 2, "FLAG", "FLAG/bucket/" + tag, n["sp"], "the %s bucket is %s" % (nd, "insensitive" if want_flag else "sensitive"), show(flag))
                     elif single:
                         mt = [x for x in walk(fields["1"]) if x.get("k") == "Adt" and x["adt"] == "parser::MatchType"]
                         arm = [e for e in q.context(path, n) if e[0] == "arm" and variant_of(e[1]) and variant_of(e[1])[0] == "Pattern"]
@@ -268,42 +295,45 @@ def run(rep):
     pm = F.fn("parser::parse_mapping")
     if pm is not None:
         npairs = 0
+        roles = lockstep_roles(F)
+        rep.check(set(roles) == {True, False}, "LOCKSTEP", "LOCKSTEP/roles", pm.sp, "one case-sensitive and one case-insensitive needle/context vector pair feed the two list automata", str({k: v[2:] for k, v in roles.items()}))
         for n, path in walk_with_path(pm.body):
-            if n.get("k") != "For":
+            if n.get("k") != "For" or not call_is(peel(n["iter"]), "IntoIterator::into_iter") or peel(peel(n["iter"])["args"][0]).get("k") != "Var":
                 continue
-            src = show(n["iter"])
-            mbucket = re.fullmatch(r"IntoIterator::into_iter\((starts_with|contains|ends_with|exact)\)", src)
-            if not mbucket:
-                continue
-            bucket = mbucket.group(1)
-            kind = {"starts_with": "StartsWith", "contains": "Contains", "ends_with": "EndsWith", "exact": "Exact"}[bucket]
-            ivar = n["pat"].get("name")
             iflet = [x for x in walk(n["body"]) if x.get("k") == "If" and peel(x["cond"]).get("k") == "LetCond" and variant_of(peel(x["cond"])["pat"]) and variant_of(peel(x["cond"])["pat"])[0] == "Pattern"]
-            ok0 = len(iflet) == 1 and variant_of(peel(iflet[0]["cond"])["pat"])[1] == kind
-            rep.check(ok0, "LOCKSTEP", "LOCKSTEP/bucket-kind/" + bucket, n["sp"], "bucket %s holds Pattern::%s" % (bucket, kind), "")
-            if not ok0:
+            if len(iflet) != 1 or variant_of(peel(iflet[0]["cond"])["pat"])[1] not in ("StartsWith", "Contains", "EndsWith", "Exact"):
                 continue
+            kind = variant_of(peel(iflet[0]["cond"])["pat"])[1]
+            bucket = peel(peel(n["iter"])["args"][0])["name"]
+            ivar_id = n["pat"].get("id")
+            rep.ok("LOCKSTEP", "LOCKSTEP/bucket-kind/" + kind, n["sp"], "bucket `%s` is drained as Pattern::%s" % (bucket, kind))
             sid = strip_ref(subpat(peel(iflet[0]["cond"])["pat"], 0)).get("id")
             for x, p2 in walk_with_path(iflet[0]["then"]):
-                if x.get("k") == "If" and show(x["cond"]) == "%s.ignore_case" % ivar:
-                    for branch, want_ctx, want_nd, label in ((x["then"], "icontext", "ineedles", "insensitive"), (x["else"], "context", "needles", "sensitive")):
-                        pushes = q.calls(branch, "::push")
-                        tgt = [show(c["args"][0]) for c in pushes]
-                        okp = sorted(tgt) == sorted([want_ctx, want_nd])
-                        okv = False
-                        for c in pushes:
-                            if show(c["args"][0]) == want_ctx:
-                                a = peel(c["args"][1])
+                c = peel(x["cond"]) if x.get("k") == "If" else None
+                if c is not None and c.get("k") == "Field" and c["name"] == "ignore_case" and q.var_id(c["arg"]) == ivar_id:
+                    for branch, flagv, label in ((x["then"], True, "insensitive"), (x["else"], False, "sensitive")):
+                        role = roles.get(flagv)
+                        pushes = q.calls(branch, "::push") if branch else []
+                        tgt = sorted(q.var_id(c2["args"][0]) for c2 in pushes if q.var_id(c2["args"][0]) is not None)
+                        okp = role is not None and tgt == sorted([role[0], role[1]])
+                        okv = oks = False
+                        for c2 in pushes:
+                            if role and q.var_id(c2["args"][0]) == role[1]:
+                                a = peel(c2["args"][1])
                                 okv = a.get("k") == "Adt" and a["adt"] == "parser::MatchType" and a["variant"] == kind and call_is(peel(a["fields"][0]["e"]), "Clone::clone") and q.var_id(peel(a["fields"][0]["e"])["args"][0]) == sid
-                        oks = any(show(c["args"][0]) == want_nd and q.var_id(c["args"][1]) == sid for c in pushes)
+                            if role and q.var_id(c2["args"][0]) == role[0]:
+                                oks = q.var_id(c2["args"][1]) == sid
                         npairs += 1
-                        rep.check(okp and okv and oks, "LOCKSTEP", "LOCKSTEP/push/%s/%s" % (bucket, label), branch["sp"],
-                                  "%s member: one push of MatchType::%s(text) to %s and one push of the same text to %s" % (label, kind, want_ctx, want_nd), str(tgt))
+                        rep.check(okp and okv and oks, "LOCKSTEP", "LOCKSTEP/push/%s/%s" % (kind, label), branch["sp"] if branch else x["sp"],
+                                  "%s member: one push of MatchType::%s(text) to the %s context vector and one push of the same text to its needle vector" % (label, kind, label),
+                                  str([show(c2["args"][0]) for c2 in pushes]))
         rep.check(npairs == 8, "LOCKSTEP", "LOCKSTEP/push-pairs", pm.sp, "eight lockstep push pairs (4 buckets x 2 case classes)", str(npairs))
         allowed = {"push", "is_empty", "len", "into_iter", "build", "next"}
-        for vec in ("needles", "context", "ineedles", "icontext"):
-            other = sorted({n["fn"].split("::")[-1] for n in walk(pm.body) if n.get("k") == "Call" and n.get("fn") and n.get("args") and any(show(a) == vec for a in n["args"])} - allowed - {"AhoCorasick"})
-            rep.check(not other, "LOCKSTEP", "LOCKSTEP/only-pushed/" + vec, pm.sp, "`%s` is only pushed to, measured and consumed (no dedup/sort/remove that would break the alignment)" % vec, str(other))
+        for flagv, role in sorted(roles.items()):
+            for vid, nm in ((role[0], "needles"), (role[1], "context")):
+                other = sorted({n["fn"].split("::")[-1] for n in walk(pm.body) if n.get("k") == "Call" and n.get("fn") and n.get("args") and any(q.var_id(a) == vid for a in n["args"])} - allowed)
+                rep.check(not other, "LOCKSTEP", "LOCKSTEP/only-pushed/%s-%s" % ("insensitive" if flagv else "sensitive", nm), pm.sp,
+                          "the %s %s vector is only pushed to, measured and consumed (no dedup/sort/remove that would break the alignment)" % ("insensitive" if flagv else "sensitive", nm), str(other))
         # regex buckets
         for n in walk(pm.body):
             if n.get("k") == "For" and show(n["iter"]) == "IntoIterator::into_iter(regex)":
